@@ -24,6 +24,7 @@ func judgeBackends(r *Run, c evalCase, vars []envVar) (outs []outcome, accepted 
 	for i, b := range backends {
 		outs[i] = runOn(b, c.src, vars, vals, c.withFns)
 	}
+	emitEvalCases(r, c, vars, vals, outs)
 	ref := outs[0]
 	if ref.cls == "compile-error" || ref.cls == "compile-panic" {
 		r.Count("prog:" + ref.cls)
